@@ -1151,6 +1151,16 @@ func run(ctx *Ctx) *Result {
 	r.drv = ctx.StartNadrv("c12")
 	defer r.drv.Close()
 
+	if ctx.Replay != "" {
+		var c c12Case
+		if err := ReadReplay(ctx.Replay, &c); err != nil {
+			fmt.Fprintln(os.Stderr, err)
+			os.Exit(2)
+		}
+		r.runCase(c)
+		return res
+	}
+
 	// ---- path.Base: Lean transcription against the real function
 	nb := ctx.N(1500, 20000)
 	baseCorpus := []string{"", "/", "//", "dev", "dev/", "a/b", "a/b/", "/a", "policies/current/code/dev", "code/ipv6/dev",
@@ -1194,16 +1204,6 @@ func run(ctx *Ctx) *Result {
 		}
 	}
 
-	if ctx.Replay != "" {
-		var c c12Case
-		if err := ReadReplay(ctx.Replay, &c); err != nil {
-			fmt.Fprintln(os.Stderr, err)
-			os.Exit(2)
-		}
-		r.runCase(c)
-		return res
-	}
-
 	// ---- cases: corpus, then seeded random; several at a time
 	var cases []c12Case
 	dv := func(front, action, arg, cwd string, l bool) inv {
@@ -1221,6 +1221,25 @@ func run(ctx *Ctx) *Result {
 		c12Case{Kind: "gated-kill", Phase: 1, Seed: 14, Invs: []inv{dv("drc", "approve", "policies/current/code/dev", ".", true),
 			dv("do-approve", "approve", "dev", ".", false)}},
 	)
+	// bounded-exhaustive: every phase of the session x kind of holder x kind of contender x {contend, kill}
+	// (thorough: all 4x4 pairs; quick: one pair per phase, rotating)
+	kinds := []inv{dv("do-approve", "approve", "dev", ".", false), dv("do-approve", "compare", "dev", ".", false),
+		dv("drc", "approve", "policies/current/code/dev", ".", true), dv("drc", "compare", "policies/p1/code/ipv6/dev", ".", false)}
+	nEx := 0
+	for ph := 0; ph < r.phases; ph++ {
+		for hi, h := range kinds {
+			for ci, c := range kinds {
+				if !ctx.Thorough() && (hi != ph%4 || ci != (ph/4+hi+1)%4) {
+					continue
+				}
+				cases = append(cases,
+					c12Case{Kind: "gated-contend", Phase: ph, Seed: uint64(1000 + nEx), Invs: []inv{h, c, kinds[(ci+1)%4]}},
+					c12Case{Kind: "gated-kill", Phase: ph, Par: true, Seed: uint64(2000 + nEx), Invs: []inv{h, c, kinds[(ci+2)%4]}})
+				nEx += 2
+			}
+		}
+	}
+	res.Notes = append(res.Notes, fmt.Sprintf("bounded-exhaustive gated cases: %d (every input line of the session as parking point)", nEx))
 	n := ctx.N(260, 6000)
 	for i := 0; i < n; i++ {
 		cases = append(cases, r.genCase(ctx.Rng.Fork()))
